@@ -361,4 +361,15 @@ package mvp6_2
 //@   finding F13-evicted-line-not-written-back: len(u.l3.lines) == u.l3.numberOfLines && u.l3.numberOfLines > 0
 //@   assigns u.l3.lines, u.ctx.Memory[*], u.pendings, all [][2]int32
 //@   loop 0: invariant u.pendings == old(u.pendings) && (forall j :: 0 <= j && j < _idx0 ==> u.pendings[j][0] != int32(addr)) && _range0 == u.pendings
+
+// The existence check made for a store registers no fetch: the pending marks
+// are untouched (a store that misses goes to memory and nothing is fetched for
+// it; a mark left behind made every later access to the line wait for ever:
+// F25). It only reorders the resident lines (LRU).
+//@ func (*memoryManagementUnit).doesExecutionMemoryChangesExistsInL3
+//@   requires wfMMU(u)
+//@   ensures u.pendings == old(u.pendings) && (forall j :: 0 <= j && j < len(u.pendings) ==> u.pendings[j] == old(u.pendings[j]))
+//@   ensures len(u.l3.lines) == len(old(u.l3.lines)) && wfMMU(u)
+//@   assigns u.l3.lines
+//@   loop 0: invariant wfMMU(u) && u.l3 == old(u.l3) && len(u.l3.lines) == len(old(u.l3.lines))
 // ---- END generated by gen_l3.py
